@@ -645,6 +645,16 @@ func (c *Ctx) loopMods(fr *Frame, li *loopInfo) modSet {
 				}
 			}
 			if ci, ok := in.(ssa.CallInstruction); ok {
+				// bytes.Buffer / strings.Builder methods change only the object holding the buffer
+				if cal := ci.Common().StaticCallee(); cal != nil && isBufferMethod(cal) && len(ci.Common().Args) > 0 {
+					if root, ok := fieldRoot(ci.Common().Args[0]); ok && outsideLoop(li, root) {
+						if key, ok := c.ptrKeyOf(fr, ci.Common().Args[0]); ok && strings.HasPrefix(key, "H:") {
+							ms.bases[key] = append(ms.bases[key], root)
+							ms.keys[key] = true
+							continue
+						}
+					}
+				}
 				if objs, ok := c.contractObjMods(fr, ci.Common()); ok {
 					inv := true
 					for _, o := range objs {
